@@ -112,6 +112,9 @@ template <class T> static void slerps (Gen<T>& g, int k)
     r.raw ("ts", tl + "]"); r.raw ("s", s + "]"); r.raw ("ssa", ss + "]");
     Quat<T> half = slerp (a, b, (T) 0.5);
     r.raw ("quarter2", jv (slerp (a, half, (T) 0.5)));
+    // the 4-D inner product and angle (cosine and sine of the returned angle through libm: the spec has no trigonometry)
+    { T th = angle4D (a, b); r.raw ("eip", jw (a.euclideanInnerProduct (b))); r.raw ("eipba", jw (b.euclideanInnerProduct (a)));
+      r.raw ("a4d", jw (th)); r.raw ("c4d", jw ((T) std::cos (th))); r.raw ("s4d", jw ((T) std::sin (th))); }
     r.emit ();
     // squad / spline through keys
     Quat<T> q0 = unitq<T> (g, k + 11), q1 = a, q2 = b, q3 = unitq<T> (g, k + 13), q4 = unitq<T> (g, k + 17);
